@@ -20,8 +20,6 @@ import (
 type parserI interface {
 	Parse([]byte) error
 	Write([]byte) (int, error)
-	VerifFinalize() error
-	VerifDepths() []int
 }
 
 type decoderI interface{ Next() error }
@@ -42,7 +40,7 @@ var Formats = map[string]*Format{
 		Name: "cbor",
 		NewEncoder: func(w io.Writer, _ string) (structform.Visitor, func() []int) {
 			v := cborl.NewVisitor(w)
-			return v, v.VerifDepths
+			return v, hookEncDepths(v)
 		},
 		NewParser:   func(v structform.Visitor) parserI { return cborl.NewParser(v) },
 		Parse:       cborl.Parse,
@@ -57,7 +55,7 @@ var Formats = map[string]*Format{
 		Name: "ubj",
 		NewEncoder: func(w io.Writer, _ string) (structform.Visitor, func() []int) {
 			v := ubjson.NewVisitor(w)
-			return v, v.VerifDepths
+			return v, hookEncDepths(v)
 		},
 		NewParser:   func(v structform.Visitor) parserI { return ubjson.NewParser(v) },
 		Parse:       ubjson.Parse,
@@ -76,7 +74,7 @@ var Formats = map[string]*Format{
 			v.SetEscapeHTML(strings.Contains(opts, "h"))
 			v.SetExplicitRadixPoint(strings.Contains(opts, "r"))
 			v.SetIgnoreInvalidFloat(strings.Contains(opts, "i"))
-			return v, v.VerifDepths
+			return v, hookEncDepths(v)
 		},
 		NewParser:   func(v structform.Visitor) parserI { return json.NewParser(v) },
 		Parse:       json.Parse,
@@ -201,10 +199,10 @@ func opParse(args []string) string {
 			if _, err = p.Write(c); err != nil {
 				break
 			}
-			ds = append(ds, Depths(p.VerifDepths())[2:])
+			ds = append(ds, depthsOf(hookParserDepths(p)))
 		}
 		if err == nil {
-			err = p.VerifFinalize()
+			err = hookParserFinalize(p)
 		}
 		if len(ds) > 0 {
 			dep = strings.Join(ds, "/")
@@ -314,7 +312,7 @@ func opReuseParse(args []string) string {
 		if _, err := p.Write(d); err != nil {
 			return err
 		}
-		return p.VerifFinalize()
+		return hookParserFinalize(p)
 	}
 	rec := NewRecorder()
 	p := f.NewParser(rec)
@@ -324,7 +322,7 @@ func opReuseParse(args []string) string {
 		if err := feed(p, mustHex(d)); err != nil {
 			return "err"
 		}
-		ds = append(ds, Depths(p.VerifDepths())[2:])
+		ds = append(ds, depthsOf(hookParserDepths(p)))
 	}
 	rec2 := NewRecorder()
 	p2 := f.NewParser(rec2)
@@ -407,11 +405,19 @@ func opExt(args []string) string {
 	return run([]string{args[3]}) + "|" + run(ExpandTok(args[3]))
 }
 
+// depthsOf: "3.0" style rendering of hook depths ("-" without hooks)
+func depthsOf(d []int) string {
+	if d == nil {
+		return "-"
+	}
+	return Depths(d)[2:]
+}
+
 // escsets: the two 128-entry JSON escape tables as filled by json's init()
 //
 //	-> <128 x 0/1 json set>|<128 x 0/1 html set>
 func opEscSets(args []string) string {
-	js, hs := json.VerifEscapeSets()
+	js, hs := hookJSONEscapeSets()
 	f := func(t []bool) string {
 		b := make([]byte, len(t))
 		for i, x := range t {
